@@ -8,6 +8,7 @@ import os
 import random
 import sys
 import time
+import threading
 import traceback
 
 HERE = os.path.dirname(os.path.abspath(__file__))
@@ -85,6 +86,30 @@ def main(argv):
     # ---- 2. correspondence + oracle on the implementation --------------------------------------
     # the case budget starts now: a cold or slow Lean build must not eat the exploration time
     ctx.deadline = time.time() + budget
+
+    # watchdog: a changed tree may make the implementation hang inside a suite (the unchanged tree never does). A check that
+    # cannot finish cannot show that the property holds: after 4x the case budget (at least 15 min) the run is ended as a
+    # broken tie, with the stack of every thread in the replay file.
+    def _watchdog():
+        import faulthandler
+        import io as _io
+        path = os.path.join(common.REPLAY_DIR, f"{prop}_{tier}_{seed}_tie.json")
+        try:
+            buf = _io.StringIO()
+            for th_id, fr in sys._current_frames().items():
+                buf.write(f"thread {th_id}:\n" + "".join(traceback.format_stack(fr)[-12:]) + "\n")
+            common.write_json(path, {"property": prop, "seed": seed, "tier": tier, "kind": "broken-tie",
+                                     "no_longer_checks": ["correspondence:check-did-not-terminate"],
+                                     "note": "the check did not finish within 4x its case budget; stacks of all threads follow",
+                                     "stacks": buf.getvalue()[-8000:], "failures_so_far": ctx.failures[:5]})
+        finally:
+            print(f"VIOLATION property={prop} replay={os.path.relpath(path, common.ROOT)} no-failing-input-found", flush=True)
+            print(f"{prop} {tier} seed={seed}: watchdog - the check did not terminate -> exit 1", flush=True)
+            os._exit(1)
+    if not replay:
+        _wd = threading.Timer(float(os.environ.get("VERIF_WATCHDOG_S", "0")) or max(900.0, 4 * budget), _watchdog)
+        _wd.daemon = True
+        _wd.start()
     harness_fault = None
     if os.path.exists(common.DRIVER_BIN):
         try:
